@@ -194,14 +194,16 @@ theorem findField_setFieldVal (fs : List Field) (n m : Name) (v : Val) :
     unfold findField setFieldVal at *
     simp only [List.map_cons, List.find?_cons]
     by_cases hn : (f.name == n) = true
-    · simp only [hn, if_true]
+    · have hn2 : f.name = n := by simpa using hn
+      simp only [hn, if_true]
       cases hm : (f.name == m) with
-      | true => simp [hn]
+      | true => simp [hn2]
       | false => simpa using ih
     · have hn' : (f.name == n) = false := by simpa using hn
+      have hn2 : ¬ f.name = n := by simpa using hn'
       simp only [hn', Bool.false_eq_true, if_false]
       cases hm : (f.name == m) with
-      | true => simp [hn']
+      | true => simp [hn2]
       | false => simpa using ih
 
 section store
@@ -247,7 +249,7 @@ theorem store_fieldVal_other (v : Val) (ho : h.get o = .inst fs) (x : W) (m : Na
       have : fl.name = m := by
         have := List.find?_some hf
         simpa using this
-      have hfn : (fl.name == n) = false := by simp [this, hm]
+      have hfn : ¬ fl.name = n := by rw [this]; exact hm
       simp [hfn]
   · simp [fieldVal, store_at_ne v ho x hx]
 
@@ -266,22 +268,22 @@ theorem Rel.store (v : Val) (ho : h.get o = .inst fs) : Rel h (storeField h o n 
     | filtered fl nt => simp [Observer.isFiltered] at hf
     | listItems nt opt =>
       by_cases hx : x = some o
-      · subst hx; simp [observables, store_at_o v ho, Heap.at, ho]
+      · subst hx; simp [observables, Heap.at, store_get v ho, ho]
       · simp [observables, store_at_ne v ho x hx]
     | dictItems nt opt =>
       by_cases hx : x = some o
-      · subst hx; simp [observables, store_at_o v ho, Heap.at, ho]
+      · subst hx; simp [observables, Heap.at, store_get v ho, ho]
       · simp [observables, store_at_ne v ho x hx]
     | setItems nt opt =>
       by_cases hx : x = some o
-      · subst hx; simp [observables, store_at_o v ho, Heap.at, ho]
+      · subst hx; simp [observables, Heap.at, store_get v ho, ho]
       · simp [observables, store_at_ne v ho x hx]
   ext := by
     intro ob x hf
     cases ob with
     | named m nt opt =>
       by_cases hx : x = some o
-      · subst hx; simp [extraObservables, store_at_o v ho, Heap.at, ho]
+      · subst hx; simp [extraObservables, Heap.at, store_get v ho, ho]
       · simp [extraObservables, store_at_ne v ho x hx]
     | filtered fl nt => simp [Observer.isFiltered] at hf
     | listItems nt opt => rfl
@@ -298,15 +300,15 @@ theorem Rel.store (v : Val) (ho : h.get o = .inst fs) : Rel h (storeField h o n 
     | filtered fl nt => simp [Observer.isFiltered] at hf
     | listItems nt opt =>
       by_cases hx : x = some o
-      · subst hx; simp [objects, store_at_o v ho, Heap.at, ho]
+      · subst hx; simp [objects, Heap.at, store_get v ho, ho]
       · simp [objects, store_at_ne v ho x hx]
     | dictItems nt opt =>
       by_cases hx : x = some o
-      · subst hx; simp [objects, store_at_o v ho, Heap.at, ho]
+      · subst hx; simp [objects, Heap.at, store_get v ho, ho]
       · simp [objects, store_at_ne v ho x hx]
     | setItems nt opt =>
       by_cases hx : x = some o
-      · subst hx; simp [objects, store_at_o v ho, Heap.at, ho]
+      · subst hx; simp [objects, Heap.at, store_get v ho, ho]
       · simp [objects, store_at_ne v ho x hx]
   objsR := by
     intro ob x hr ht
